@@ -254,6 +254,19 @@ def rfcAux (lenient : Bool) : Nat → Bytes → RRes
 
 def rfcDechunk (lenient : Bool) (s : Bytes) : RRes := rfcAux lenient (s.length + 1) s
 
+/-- "no chunk extensions": walks the chunk-size lines, each must be `1*HEXDIG CRLF` exactly; returns what follows
+    the last-chunk line (hypothesis of `C23_accepts_strict`) -/
+def noExtChunks : Nat → Bytes → Option Bytes
+  | 0, _ => none
+  | f + 1, s =>
+    match s.dropWhile isHexDig with
+    | a :: b :: r2 =>
+      if a.toNat = 13 ∧ b.toNat = 10 then
+        if hexNat (s.takeWhile isHexDig) = 0 then some r2
+        else noExtChunks f (r2.drop (hexNat (s.takeWhile isHexDig) + 2))
+      else none
+    | _ => none
+
 /-- does some size line (as the RFC decoder walks the stream) carry a chunk extension? (driver tag only) -/
 def hasSemicolonLine (s : Bytes) : Bool :=
   match splitLF s with
